@@ -498,6 +498,7 @@ int main(int argc, char** argv)
     perturb_heap(strtoull(opts["layout"].c_str(), nullptr, 10));
   build_objects();
   connect_signals();
+  mcd_init(); // engine D: no-op unless `opt mcout FILE`
   post_platform_init();
   if (opts.count("h2") && opts["h2"] != "0") {
     h2_state = strtoull(opts["h2"].c_str(), nullptr, 10);
@@ -542,7 +543,7 @@ int main(int argc, char** argv)
       spawn(id);
   int rc = 0;
   if (walk) {
-    rc = run_walk(e);
+    rc = (opts.count("walker") && opts["walker"] == "d") ? run_walk_d(e) : run_walk(e);
   } else {
     try {
       if (opts.count("until"))
